@@ -6,8 +6,10 @@ deterministically, against a stub `awscrt` package (harness/fake_awscrt, put on
 sys.path by this check only) through exhaustive short and random long
 sequences of submissions (upload / download to a path / download to a stream /
 delete; with 0-2 recording subscribers, optionally one whose on_done raises;
-optionally with a construction failure), completions in any order (ok / error /
-cancelled / ok-but-rename-fails) and shutdowns (with / without cancel); after
+optionally with a construction failure in on_queued / argument building /
+make_request), completions in any order (ok / error / cancelled /
+ok-but-rename-fails; in one step or split into "future resolved" and "on_done
+delivered") and shutdowns (shutdown() / __exit__, with / without cancel); after
 every op the callback log, the semaphore value, the temp-dir contents, every
 future's done()/result() class and done-event are compared with the extracted
 Coq model.  Search oracle: C20 stated on the implementation's trace alone.
@@ -28,7 +30,8 @@ FAKE = os.path.join(common.VERIF, 'harness', 'fake_awscrt')
 
 KINDS = 'upsx'          # upload, download to path, download to stream, delete
 OUTCOMES = 'kfec'       # ok, ok + rename fails, error, cancelled
-FAIL_VARIANTS = ('make_request', 'serialize', 'missing_file')
+FAILS = '0qam'          # nowhere, first subscriber's on_queued, argument building, make_request
+ARG_VARIANTS = ('serialize', 'missing_file')
 
 
 # ---------------------------------------------------------------- loading
@@ -68,6 +71,10 @@ class SubscriberBoom(Exception):
 
 
 class ConstructionBoom(Exception):
+    pass
+
+
+class QueuedBoom(Exception):
     pass
 
 
@@ -150,6 +157,7 @@ class World:
 
         self.client = S3Client()
         self.client.on_finish = self._on_finish
+        self.client.would_block = self.would_block
         self.ser = Ser()
         self.mgr = crt.CRTTransferManager(self.client, self.ser)
         self.source_permits = self.mgr._semaphore._value
@@ -163,6 +171,10 @@ class World:
         self.log.append(e)
         self.by_idx.setdefault(e[1], []).append(e[0])
 
+    def would_block(self, what):
+        if not self.allow_block:
+            raise HarnessWouldBlock(what)
+
     def _on_finish(self, req, error):
         self.cur = self.req_idx.get(req.index)
 
@@ -172,13 +184,15 @@ class World:
         if t is not None and t.seen_id is not None and coordinator.transfer_id != t.seen_id:
             self.problems.append(f'after-done of transfer id {coordinator.transfer_id} while running #{self.cur}')
 
-    def make_sub(self, t, k, raises):
+    def make_sub(self, t, k, raises, queued_raises=False):
         w = self
 
         class Sub:
             def on_queued(self, future, **kwargs):
                 w.emit(('q', w.cur, k))
                 t.seen_id = future.meta.transfer_id
+                if queued_raises:
+                    raise QueuedBoom(f'on_queued of subscriber {k} of #{t.idx}')
 
             def on_done(self, future, **kwargs):
                 w.emit(('d', w.cur, k))
@@ -192,26 +206,31 @@ class World:
         shutil.rmtree(self.dir, ignore_errors=True)
 
     # -- ops
-    def submit(self, kind, nsubs, raises, fails, variant):
+    def submit(self, kind, nsubs, raises, fail, variant):
+        """fail: '0' | 'q' (first subscriber's on_queued raises) | 'a' (building the
+        make_request arguments raises: serializer, or a missing upload source) |
+        'm' (make_request raises).  All of them are inside the try block."""
         if self.mgr._semaphore._value == 0:
             return 'block'
+        fails = fail != '0'
+        if fail == 'q' and nsubs == 0:
+            fail = 'a'
+        if fail == 'a' and (variant not in ARG_VARIANTS or (variant == 'missing_file' and kind != 'u')):
+            variant = 'serialize'
         idx = len(self.trs)
         t = Tr(idx, kind, nsubs, raises, fails)
         self.trs.append(t)
-        subs = [self.make_sub(t, k, t.raises and k == nsubs - 1) for k in range(nsubs)]
+        subs = [self.make_sub(t, k, t.raises and k == nsubs - 1, fail == 'q' and k == 0) for k in range(nsubs)]
         t.content = bytes([65 + idx % 26]) * (3 + idx % 5)
-        if fails:
-            if variant == 'missing_file' and kind != 'u':
-                variant = 'make_request'
-            if variant == 'make_request':
-                self.client.fail_next = ConstructionBoom('make_request')
-            elif variant == 'serialize':
-                self.ser.fail_next = ConstructionBoom('serialize')
+        if fail == 'm':
+            self.client.fail_next = ConstructionBoom('make_request')
+        elif fail == 'a' and variant == 'serialize':
+            self.ser.fail_next = ConstructionBoom('serialize')
         ncalls = len(self.client.calls)
         self.cur = idx
         try:
             if kind == 'u':
-                if fails and variant == 'missing_file':
+                if fail == 'a' and variant == 'missing_file':
                     src = os.path.join(self.dir, f'missing{idx}')
                 elif idx % 2 == 0:
                     src = os.path.join(self.dir, f'src{idx}')
@@ -257,7 +276,8 @@ class World:
     def pending(self, i):
         return 0 <= i < len(self.trs) and self.trs[i].req is not None and not self.trs[i].req.finished
 
-    def complete(self, i, o):
+    def resolve(self, i, o):
+        """First half of the CRT's _on_finish: finished_future gets its result."""
         from awscrt.s3 import S3ResponseError, cancel_error
         from awscrt.exceptions import AwsCrtError
         if not self.pending(i):
@@ -290,8 +310,22 @@ class World:
                     self.problems.append(f'#{i}: future.cancel() did not reach the CRT request')
             err = cancel_error()
         t.finished_with = o
+        t.req.resolve(err)
+        self.cur = None
+        return 'resolved'
+
+    def deliverable(self, i):
+        return 0 <= i < len(self.trs) and self.trs[i].req is not None and \
+            self.trs[i].req.finished and not self.trs[i].req.delivered
+
+    def deliver(self, i):
+        """Second half: the CRT calls on_done."""
+        if not self.deliverable(i):
+            return 'invalid'
+        t = self.trs[i]
         t.on_done_invoked = True
-        escaped = t.req.finish(err)
+        self.cur = i
+        escaped = t.req.deliver()
         self.cur = None
         if escaped is None:
             return 'completed'
@@ -299,49 +333,47 @@ class World:
             return 'cbraised'
         return 'cbraised:' + type(escaped).__name__
 
+    def complete(self, i, o):
+        r = self.resolve(i, o)
+        return self.deliver(i) if r == 'resolved' else r
+
     def registered(self):
         return [t for t in self.trs if t.future is not None]
 
-    def would_return(self):
-        """In a single thread nobody else sets a done event or resolves a future:
-        shutdown() returns iff nothing is left to wait for."""
-        for t in self.registered():
-            c = t.future._coordinator
-            if not c._done_event.is_set():
-                return False
-            if c._exception is None and not c.done():
-                return False
-        return True
-
     def mark_cancelled(self):
         for t in self.trs:
-            if t.req is not None and t.req.finished and t.finished_with is None:
+            if t.req is not None and t.req.delivered and t.finished_with is None:
                 t.finished_with = 'c'
                 t.on_done_invoked = True
 
-    def shutdown(self, cancel, verdict):
-        """Calls the real shutdown unless that could block this thread for ever.
-        verdict: the model's answer ('returned' | 'hang') or None when there is no model."""
+    def shutdown(self, cancel, via='shutdown'):
+        """Calls the REAL shutdown()/__exit__ on this thread.  A wait that could
+        never end here (done event not set, finished_future pending) raises
+        HarnessWouldBlock (a BaseException) out of it: 'hang'."""
         self.client.sync_cancel = True
+        held = [(t, t.future._coordinator._s3_request) for t in self.registered()]
         try:
-            if verdict == 'returned':
-                if not cancel and not self.would_return():
-                    return 'hang'
-                th = threading.Thread(target=self.mgr.shutdown, args=(cancel,), daemon=True)
-                th.start()
-                th.join(10)
-                self.mark_cancelled()
-                return 'hang' if th.is_alive() else 'returned'
-            if cancel:
-                self.mgr._cancel_transfers()       # first phase of _shutdown
-                self.mark_cancelled()
-            if not self.would_return():
-                return 'hang'
-            self.mgr.shutdown(False)               # nothing left to wait for
-            return 'returned'
+            if via == 'exit':
+                if cancel:
+                    self.mgr.__exit__(ValueError, ValueError('body of the with block failed'), None)
+                else:
+                    self.mgr.__exit__(None, None, None)
+            else:
+                self.mgr.shutdown(cancel)
+            res = 'returned'
+        except HarnessWouldBlock:
+            res = 'hang'
         finally:
             self.client.sync_cancel = False
             self.cur = None
+        self.mark_cancelled()
+        # a real thread would still sit inside coordinator.result(); undo what its
+        # `finally` did when the simulated block unwound it
+        for t, req in held:
+            c = t.future._coordinator
+            if res == 'hang' and c._s3_request is None and req is not None and not t.req.finished:
+                c._s3_request = req
+        return res
 
     # -- observation
     def temp_state(self, t):
@@ -369,9 +401,7 @@ class World:
             try:
                 t.future.result()
                 return 'F?returned'
-            except ConstructionBoom:
-                return 'F'
-            except OSError:
+            except (ConstructionBoom, QueuedBoom, OSError):
                 return 'F'
             except Exception as e:
                 return 'F?' + type(e).__name__
@@ -419,7 +449,9 @@ class World:
 
 
 class Patched:
-    """class-level logging wrapper around the after-done flag."""
+    """class-level logging wrapper around the after-done flag, and a shim for the
+    `threading` name of s3transfer.crt whose Event detects a wait that would
+    block the harness thread for ever."""
     def __enter__(self):
         crt = load_crt()
         self.cls = crt.CRTTransferCoordinator
@@ -434,19 +466,35 @@ class Patched:
             return orig(coord)
         self.cls.set_done_callbacks_complete = wrapper
         self.world = None
+
+        class BlockEvent(threading.Event):
+            """Event.wait() that could never return in this thread raises instead."""
+            def wait(self, timeout=None):
+                w = holder.world
+                if timeout is None and not self.is_set() and w is not None and not w.allow_block:
+                    raise HarnessWouldBlock('done event')
+                return super().wait(timeout)
+        import types
+        self.crt = crt
+        self.orig_threading = crt.threading
+        crt.threading = types.SimpleNamespace(Semaphore=threading.Semaphore, Lock=threading.Lock,
+                                              Event=BlockEvent)
         return self
 
     def __exit__(self, *a):
         self.cls.set_done_callbacks_complete = self.orig
+        self.crt.threading = self.orig_threading
 
 
 # ---------------------------------------------------------------- ops <-> text
 
 def op_token(op):
     if op[0] == 'S':
-        return f'S:{op[1]}:{op[2]}:{int(op[3])}:{int(op[4])}'
-    if op[0] == 'C':
-        return f'C:{op[1]}:{op[2]}'
+        return f'S:{op[1]}:{op[2]}:{int(op[3])}:{op[4]}'
+    if op[0] in 'CR':
+        return f'{op[0]}:{op[1]}:{op[2]}'
+    if op[0] == 'D':
+        return f'D:{op[1]}'
     return f'X:{int(op[1])}'
 
 
@@ -459,8 +507,7 @@ def model_results(model_out):
 
 
 def run_impl(patch, root, permits, ops, model_res=None):
-    """-> (trace string, World's oracle inputs).  `model_res`: the model's verdict
-    per op, used only to decide whether a blocking call may be made."""
+    """-> (trace string, oracle failures, configured permit count)."""
     w = World(permits, root)
     patch.world = w
     segs, steps = [], []
@@ -468,13 +515,17 @@ def run_impl(patch, root, permits, ops, model_res=None):
         for n, op in enumerate(ops):
             lf = len(w.log)
             if op[0] == 'S':
-                variant = op[5] if len(op) > 5 else FAIL_VARIANTS[n % 3]
+                variant = op[5] if len(op) > 5 and op[5] else ARG_VARIANTS[n % 2]
                 res = w.submit(op[1], op[2], op[3], op[4], variant)
             elif op[0] == 'C':
                 res = w.complete(op[1], op[2])
+            elif op[0] == 'R':
+                res = w.resolve(op[1], op[2])
+            elif op[0] == 'D':
+                res = w.deliver(op[1])
             else:
-                verdict = model_res[n] if model_res is not None and n < len(model_res) else None
-                res = w.shutdown(op[1], verdict)
+                via = op[2] if len(op) > 2 and op[2] else ('exit' if n % 2 else 'shutdown')
+                res = w.shutdown(op[1], via)
             segs.append(w.segment(res, lf))
             steps.append(oracle_step(w, op, res, lf))
         return ' | '.join(segs), [s for st in steps for s in st], w.count
@@ -501,7 +552,7 @@ def oracle_step(w, op, res, log_from):
             bad.append(('one-release', f'transfer #{t.idx} ({t.kind}): {na} acquires, {nr} releases, {nf} after-done flags'))
         if t.on_done_invoked and not t.raises:
             if nr != 1:
-                how = 'construction failure' if t.fails else {'k': 'success', 'f': 'success', 'e': 'error', 'c': 'cancel'}[t.finished_with]
+                how = 'construction failure' if t.finished_with is None else {'k': 'success', 'f': 'success', 'e': 'error', 'c': 'cancel'}[t.finished_with]
                 bad.append(('one-release', f'transfer #{t.idx} ({t.kind}) finished by {how}: its permit was released {nr} times'))
             if names.count('d') != t.nsubs:
                 bad.append(('order', f'transfer #{t.idx}: {names.count("d")} of {t.nsubs} subscribers\' on_done ran'))
@@ -524,7 +575,7 @@ def oracle_step(w, op, res, log_from):
                                (pos.get('f') and min(pos[h]) > min(pos['f']))):
                 bad.append(('order', f'transfer #{t.idx}: temp file {"renamed" if h == "mv" else "removed"} after a done callback'))
         # publish or remove
-        if t.kind == 'p' and t.req is not None and t.req.finished:
+        if t.kind == 'p' and t.req is not None and t.req.delivered:
             te, de = os.path.exists(t.temp), os.path.exists(t.dest)
             if te:
                 bad.append(('publish-or-remove', f'download #{t.idx} finished ({t.finished_with}) but its temporary file is still there'))
@@ -543,6 +594,8 @@ def oracle_step(w, op, res, log_from):
                 bad.append(('shutdown', f'shutdown({bool(op[1])}) returned before the done callbacks of transfer #{t.idx} ran'))
             if t.temp and os.path.exists(t.temp):
                 bad.append(('shutdown', f'shutdown({bool(op[1])}) returned with a temporary file of #{t.idx} left'))
+    if val > w.count:
+        bad.append(('conservation', f'after {op_token(op)}: {val} permits available, more than the configured {w.count}'))
     if op[0] == 'S' and res.startswith('raised:'):
         bad.append(('blocks-not-fails', f'submit raised {res[7:]}'))
     if op[0] == 'S' and res == 'block!':
@@ -553,8 +606,9 @@ def oracle_step(w, op, res, log_from):
 
 
 def thread_tests(ctx):
-    """The three places where the real code must BLOCK: helper thread + join timeout."""
-    crt = load_crt()
+    """The places where the real code must BLOCK, with real threads: helper
+    thread + join timeout.  allow_block makes the stub's waits real."""
+    load_crt()
     out = []
     root = tempfile.mkdtemp(prefix='verif-c20-thr-')
     with Patched() as patch:
@@ -562,8 +616,8 @@ def thread_tests(ctx):
             # 1. the (n+1)-th concurrent submit blocks, then proceeds when a permit returns
             w = World(2, root)
             patch.world = w
-            w.submit('u', 1, False, False, None)
-            w.submit('p', 1, False, False, None)
+            w.submit('u', 1, False, '0', None)
+            w.submit('p', 1, False, '0', None)
             w.allow_block = True
             box = {}
 
@@ -578,22 +632,22 @@ def thread_tests(ctx):
             th.join(0.4)
             blocked = th.is_alive() and not box and w.mgr._semaphore._value == 0 and \
                 len(w.client.calls) == 2
-            w.allow_block = False
             w.complete(1, 'k')
             w.cur = 2
             th.join(10)
             proceeded = (not th.is_alive()) and 'future' in box and len(w.client.calls) == 3 and \
                 w.mgr._semaphore._value == 0
             if not blocked:
-                out.append(('blocks-not-fails', f'with 2 permits held a third submit did not block (thread alive={th.is_alive()}, outcome={box})'))
+                out.append(('blocks-not-fails', 'third-submit', f'with 2 permits held a third submit did not block (thread alive={th.is_alive()}, outcome={box})'))
             elif not proceeded:
-                out.append(('blocks-not-fails', 'a blocked submit did not proceed after a permit was released'))
+                out.append(('blocks-not-fails', 'third-submit', 'a blocked submit did not proceed after a permit was released'))
             ctx.count('crt-thread', 1, nontrivial_key='third-submit-blocks')
             w.close()
             # 2. shutdown() waits for a pending transfer and returns once it is finished
             w = World(2, root)
             patch.world = w
-            w.submit('p', 1, False, False, None)
+            w.allow_block = True
+            w.submit('p', 1, False, '0', None)
             th = threading.Thread(target=w.mgr.shutdown, daemon=True)
             th.start()
             th.join(0.4)
@@ -601,40 +655,60 @@ def thread_tests(ctx):
             w.complete(0, 'e')
             th.join(10)
             if not waited:
-                out.append(('shutdown', 'shutdown() returned while a transfer was pending'))
+                out.append(('shutdown', 'pending', 'shutdown() returned while a transfer was pending'))
             elif th.is_alive():
-                out.append(('shutdown', 'shutdown() still blocked after the last transfer finished'))
+                out.append(('shutdown', 'pending', 'shutdown() still blocked after the last transfer finished'))
             ctx.count('crt-thread', 1, nontrivial_key='shutdown-waits')
             w.close()
-            # 3. the CRT resolved the future but on_done has not run yet (the CRT thread is
-            #    between the two halves of _on_finish): shutdown must keep waiting
-            w = World(2, root)
-            patch.world = w
-            w.submit('p', 1, False, False, None)
-            t = w.trs[0]
-            with open(t.temp, 'wb') as f:
-                f.write(t.content)
-            t.finished_with = 'k'
-            t.req.resolve(None)
-            th = threading.Thread(target=w.mgr.shutdown, daemon=True)
-            th.start()
-            th.join(0.4)
-            waited = th.is_alive()
-            published_early = os.path.exists(t.dest)
-            w.cur = 0
-            t.req.deliver()
-            th.join(10)
-            if not waited:
-                out.append(('shutdown', 'shutdown() returned after the CRT future was resolved but before the done '
-                                        'callbacks (rename, subscribers, release) ran'))
-            elif th.is_alive() or not os.path.exists(t.dest) or published_early:
-                out.append(('shutdown', 'shutdown() did not return after the done callbacks ran, or the file was not published by them'))
-            ctx.count('crt-thread', 1, nontrivial_key='shutdown-waits-for-callbacks')
-            w.close()
+            # 3. the CRT resolved a future but its on_done has not run yet (the CRT thread
+            #    is between the two halves of _on_finish): shutdown()/shutdown(cancel=True)/
+            #    __exit__ must keep waiting -- also when an EARLIER transfer's result() raises
+            for first in ('none', 'construction-failure', 'error', 'cancelled'):
+                for call in ('shutdown()', 'shutdown(cancel=True)', '__exit__(None)', '__exit__(exception)'):
+                    name = f'{first}-ahead:{call}'
+                    w = World(3, root)
+                    patch.world = w
+                    w.allow_block = True
+                    if first == 'construction-failure':
+                        w.submit('u', 1, False, 'm', None)
+                    elif first == 'error':
+                        w.submit('p', 1, False, '0', None)
+                        w.complete(0, 'e')
+                    elif first == 'cancelled':
+                        w.submit('x', 1, False, '0', None)
+                        w.complete(0, 'c')
+                    i = len(w.trs)
+                    w.submit('p', 1, False, '0', None)
+                    t = w.trs[i]
+                    w.resolve(i, 'k')
+                    w.client.sync_cancel = True
+                    target, args = {
+                        'shutdown()': (w.mgr.shutdown, ()),
+                        'shutdown(cancel=True)': (w.mgr.shutdown, (True,)),
+                        '__exit__(None)': (w.mgr.__exit__, (None, None, None)),
+                        '__exit__(exception)': (w.mgr.__exit__, (ValueError, ValueError('x'), None)),
+                    }[call]
+                    th = threading.Thread(target=target, args=args, daemon=True)
+                    th.start()
+                    th.join(0.25)
+                    waited = th.is_alive()
+                    published_early = os.path.exists(t.dest)
+                    w.deliver(i)
+                    th.join(10)
+                    if not waited:
+                        out.append(('shutdown', name,
+                                    f'{call} returned after the CRT resolved transfer #{i}\'s future but before its done '
+                                    f'callbacks (rename, subscribers, release, flag) ran'
+                                    + ('' if first == 'none' else f'; transfer #0 ahead of it ended by {first}')))
+                    elif th.is_alive() or not os.path.exists(t.dest) or published_early:
+                        out.append(('shutdown', name, f'{call} did not return after the done callbacks ran, or the file was not published by them'))
+                    ctx.count('crt-thread', 1, nontrivial_key=name, first=first)
+                    w.close()
             # 4. (behaviour outside the property's quantifier, recorded) raising subscriber
             w = World(2, root)
             patch.world = w
-            w.submit('u', 1, True, False, None)
+            w.allow_block = True
+            w.submit('u', 1, True, '0', None)
             w.complete(0, 'k')
             w.client.sync_cancel = True
             th = threading.Thread(target=w.mgr.shutdown, args=(True,), daemon=True)
@@ -654,74 +728,90 @@ def thread_tests(ctx):
 
 def exhaustive(depth, permits=2):
     """All op sequences up to `depth` over a small alphabet, pruned to those in
-    which every completion addresses a pending request (the shadow below only
-    tracks which requests are pending)."""
-    subs = [('S', 'p', 1, False, False), ('S', 'p', 1, False, True), ('S', 'u', 1, False, False),
-            ('S', 'x', 0, False, True)]
+    which every completion / resolution / delivery addresses a request in the
+    right state (the shadow below only tracks pending and resolved requests)."""
+    subs = [('S', 'p', 1, False, '0'), ('S', 'p', 1, False, 'q'), ('S', 'u', 1, False, '0'),
+            ('S', 'u', 1, False, 'a'), ('S', 'x', 0, False, 'm')]
     out = []
 
-    def rec(seq, pending, ntr, free):
+    def rec(seq, pending, resolved, ntr, free):
         if seq:
             out.append(list(seq))
         if len(seq) == depth:
             return
         for s in subs:
             if free > 0:
-                if s[4]:
-                    rec(seq + [s], pending, ntr + 1, free)
+                if s[4] != '0':
+                    rec(seq + [s], pending, resolved, ntr + 1, free)
                 else:
-                    rec(seq + [s], pending | {ntr}, ntr + 1, free - 1)
+                    rec(seq + [s], pending | {ntr}, resolved, ntr + 1, free - 1)
             elif s is subs[0]:
-                rec(seq + [s], pending, ntr, free)       # blocks
+                rec(seq + [s], pending, resolved, ntr, free)       # blocks
         for i in sorted(pending):
             for o in 'kec':
-                rec(seq + [('C', i, o)], pending - {i}, ntr, free + 1)
-        for c in (False, True):
-            if c:
-                rec(seq + [('X', True)], frozenset(), ntr, free + len(pending))
-            else:
-                rec(seq + [('X', False)], pending, ntr, free)
-    rec([], frozenset(), 0, permits)
+                rec(seq + [('C', i, o)], pending - {i}, resolved, ntr, free + 1)
+            for o in 'ke':
+                rec(seq + [('R', i, o)], pending - {i}, resolved | {i}, ntr, free)
+        for i in sorted(resolved):
+            rec(seq + [('D', i)], pending, resolved - {i}, ntr, free + 1)
+        rec(seq + [('X', True)], frozenset(), resolved, ntr, free + len(pending))
+        rec(seq + [('X', False)], pending, resolved, ntr, free)
+    rec([], frozenset(), frozenset(), 0, permits)
     return out
 
 
 def random_case(rng, malformed=False):
     permits = rng.choice([1, 2, 2, 3, 3, 4])
     n = rng.randrange(4, 26)
-    ops, pending, ntr, free = [], [], 0, permits
-    leaked = False
+    ops, pending, resolved, ntr, free = [], [], [], 0, permits
     for _ in range(n):
         r = rng.random()
         if malformed and r < 0.25:
-            ops.append(('C', rng.randrange(0, ntr + 3), rng.choice(OUTCOMES)))
-            if ops[-1][1] in pending:
-                pending.remove(ops[-1][1])
+            kind = rng.choice('CRD')
+            i = rng.randrange(0, ntr + 3)
+            ops.append(('D', i) if kind == 'D' else (kind, i, rng.choice(OUTCOMES)))
+            if kind in 'CR' and i in pending:
+                pending.remove(i)
+                if kind == 'C':
+                    free += 1
+                else:
+                    resolved.append(i)
+            elif kind == 'D' and i in resolved:
+                resolved.remove(i)
                 free += 1
             continue
-        if r < 0.45 or not pending:
+        if r < 0.4 or not (pending or resolved):
             kind = rng.choice(KINDS)
             nsubs = rng.choice([0, 1, 1, 2])
             raises = rng.random() < 0.08
-            fails = rng.random() < 0.25
-            ops.append(('S', kind, nsubs, raises, fails, rng.choice(FAIL_VARIANTS)))
+            fail = rng.choice('000000qam')
+            ops.append(('S', kind, nsubs, raises, fail, rng.choice(ARG_VARIANTS)))
             if free > 0:
-                if raises and nsubs:
-                    leaked = True
-                if fails:
+                if fail != '0':
                     if raises and nsubs:
                         free -= 1
                 else:
                     pending.append(ntr)
                     free -= 1
                 ntr += 1
-        elif r < 0.9:
+        elif r < 0.65 and pending:
             i = rng.choice(pending)
             pending.remove(i)
             free += 1
             ops.append(('C', i, rng.choice('kkkfeecc')))
+        elif r < 0.78 and pending:
+            i = rng.choice(pending)
+            pending.remove(i)
+            resolved.append(i)
+            ops.append(('R', i, rng.choice('kkfeec')))
+        elif r < 0.9 and resolved:
+            i = rng.choice(resolved)
+            resolved.remove(i)
+            free += 1
+            ops.append(('D', i))
         else:
             c = rng.random() < 0.6
-            ops.append(('X', c))
+            ops.append(('X', c, rng.choice(['shutdown', 'exit'])))
             if c:
                 free += len(pending)
                 pending = []
@@ -733,32 +823,41 @@ def big_case(rng, source_permits):
     ops = []
     n = source_permits + 5
     for i in range(n):
-        ops.append(('S', KINDS[i % 4], i % 3, False, i % 17 == 5, FAIL_VARIANTS[i % 3]))
+        ops.append(('S', KINDS[i % 4], i % 3, False, 'qam'[(i // 17) % 3] if i % 17 == 5 else '0',
+                    ARG_VARIANTS[i % 2]))
     # what got a request: walk a shadow
     pending, ntr, free = [], 0, source_permits
     for o in ops:
         if free > 0:
-            if not o[4]:
+            if o[4] == '0':
                 pending.append(ntr)
                 free -= 1
             ntr += 1
     order = list(pending)
     rng.shuffle(order)
     half = order[:len(order) // 2]
-    for i in half:
-        ops.append(('C', i, rng.choice('kec')))
+    for k, i in enumerate(half):
+        if k % 5 == 4:
+            ops.append(('R', i, rng.choice('ke')))
+        else:
+            ops.append(('C', i, rng.choice('kec')))
     for i in range(7):
-        ops.append(('S', KINDS[i % 4], 1, False, False, None))
-    ops.append(('X', False))
-    ops.append(('X', True))
-    ops.append(('X', False))
+        ops.append(('S', KINDS[i % 4], 1, False, '0', None))
+    ops.append(('X', False, 'shutdown'))
+    for k, i in enumerate(half):
+        if k % 5 == 4:
+            ops.append(('D', i))
+    ops.append(('X', False, 'exit'))
+    ops.append(('X', True, 'shutdown'))
+    ops.append(('X', False, 'exit'))
     return None, ops
 
 
 def case_hist(ops):
     return {
         'kinds': ''.join(sorted({o[1] for o in ops if o[0] == 'S'})) or '-',
-        'construction_failure': any(o[0] == 'S' and o[4] for o in ops),
+        'construction_failure': ''.join(sorted({o[4] for o in ops if o[0] == 'S' and o[4] != '0'})) or '-',
+        'split_completion': any(o[0] == 'R' for o in ops),
         'shutdown': any(o[0] == 'X' for o in ops),
     }
 
@@ -788,11 +887,54 @@ def shrink(patch, root, permits, ops, rule, model_res_for, budget_s=4.0):
         for k in range(len(cur) - 1, -1, -1):
             if time.time() - t0 >= budget_s:
                 break
-            cand = cur[:k] + cur[k + 1:]
-            if fails(cand):
+            cand = drop_op(cur, k, permits)
+            if cand and fails(cand):
                 cur, changed = cand, True
                 break
     return cur
+
+
+def drop_op(ops, k, permits):
+    """ops without ops[k]; when that is a submission that created transfer j, the
+    ops addressing j go too and later indices shift down (blocking is only
+    approximated by a shadow count -- the candidate is re-run anyway)."""
+    free = 2 if permits is None else permits
+    if permits is None:
+        free = 10 ** 6
+    ntr, created, pending, resolved = 0, {}, set(), set()
+    for n, o in enumerate(ops):
+        if o[0] == 'S' and free > 0:
+            created[n] = ntr
+            if o[4] == '0':
+                pending.add(ntr)
+                free -= 1
+            elif o[3] and o[2]:
+                free -= 1
+            ntr += 1
+        elif o[0] == 'C' and o[1] in pending:
+            pending.discard(o[1])
+            free += 1
+        elif o[0] == 'R' and o[1] in pending:
+            pending.discard(o[1])
+            resolved.add(o[1])
+        elif o[0] == 'D' and o[1] in resolved:
+            resolved.discard(o[1])
+            free += 1
+        elif o[0] == 'X' and o[1]:
+            free += len(pending)
+            pending = set()
+    j = created.get(k)
+    out = []
+    for n, o in enumerate(ops):
+        if n == k:
+            continue
+        if j is not None and o[0] in 'CRD':
+            if o[1] == j:
+                continue
+            if o[1] > j:
+                o = (o[0], o[1] - 1) + tuple(o[2:])
+        out.append(o)
+    return out
 
 
 def jsonable(ops):
@@ -800,7 +942,13 @@ def jsonable(ops):
 
 
 def from_json(ops):
-    return [tuple(o) for o in ops]
+    out = []
+    for o in ops:
+        o = list(o)
+        if o[0] == 'S' and isinstance(o[4], bool):      # older replay files
+            o[4] = 'm' if o[4] else '0'
+        out.append(tuple(o))
+    return out
 
 
 # ---------------------------------------------------------------- run
@@ -814,19 +962,24 @@ def run(ctx):
         'the awscrt package is a stub (harness/fake_awscrt): the real CRT client, its native threads and the thread on '
         'which it runs on_done / on_progress / on_body are NOT available here; callbacks run synchronously on the '
         'harness thread, so interleavings of CRT callback threads with submitting threads are not exercised',
+        'blocking is simulated in the differential runs: Event.wait() on an unset done event and result() on a pending '
+        'finished_future raise out of shutdown()/__exit__ instead of blocking (s3transfer.crt.threading is replaced by a shim '
+        'for the duration of the check); 19 helper-thread tests exercise the same waits with real blocking',
         'stub contract taken from awscrt: a request finishes exactly once; finished_future is resolved before on_done '
-        'runs; make_request that raises creates neither a request nor the recv_filepath file; an exception escaping '
+        'runs (both orders of other events in between are explored); make_request that raises creates neither a request nor the recv_filepath file; an exception escaping '
         'on_done is dropped by the CRT; cancel() leads to one completion with AWS_ERROR_S3_CANCELED',
         'subscribers are well behaved except where stated: a subscriber whose on_done raises is modelled '
         '(theorem crt_release_when_subscriber_raises_refuted) and excluded from the exactly-one-release clause',
         'KeyboardInterrupt / BaseException paths of _submit_transfer and _shutdown are not modelled',
         'the extracted OCaml model and its line driver are trusted for the correspondence only',
     ]
-    ctx.cov['rule'] = ('cases: op sequences (submit kind/subscribers/raising/construction-failure, complete idx '
-                       'ok|rename-fails|error|cancel, shutdown cancel?) run on the real CRTTransferManager over the stub CRT '
+    ctx.cov['rule'] = ('cases: op sequences (submit kind/subscribers/raising/construction failure in on_queued | argument '
+                       'building | make_request; complete idx ok|rename-fails|error|cancel, or split into resolve idx (future '
+                       'set) and deliver idx (on_done runs); shutdown()/__exit__ with/without cancel -- called for real, a wait '
+                       'that can never end raises out of it) run on the real CRTTransferManager over the stub CRT '
                        'and on the extracted Coq model, compared op by op (result, semaphore value, #holding, new callback '
                        'events, per-transfer id/temp-file state/future class/done-event). Exhaustive: every sequence up to '
-                       'the depth over a 4-submission alphabet with 2 permits in which completions address pending requests; '
+                       'the depth over a 5-submission alphabet with 2 permits in which completions/resolutions/deliveries address requests in the right state; '
                        'random: 4-25 ops, 1-4 permits; malformed: completions of unknown/finished requests; one run at the '
                        'source\'s permit count + 5. Distinct = distinct model command line; non-trivial = at least one '
                        'submission that got a permit plus a completion, construction failure or shutdown.')
@@ -839,8 +992,9 @@ def run(ctx):
             else:
                 search_after_break(ctx, patch, root)
         t2 = time.time()
-        for rule, what in thread_tests(ctx):
-            ctx.report(f'oracle:{rule}:thread-test', what, {'kind': 'schedule', 'case': {'thread_test': rule}})
+        for rule, name, what in thread_tests(ctx):
+            ctx.report(f'oracle:{rule}:thread-test:{name}', what,
+                       {'kind': 'schedule', 'case': {'thread_test': name}, 'rule': rule})
         ctx.notes.append(f'timing: proofs+build {t1 - t0:.1f}s (includes waiting for the shared build lock), '
                          f'correspondence {t2 - t1:.1f}s, thread tests {time.time() - t2:.1f}s')
     finally:
@@ -859,11 +1013,12 @@ def gen_cases(ctx, source_permits):
     depth = 5 if ctx.thorough() else 4
     for ops in exhaustive(depth):
         cases.append(('exhaustive', 2, ops))
-    deeper = [o for o in exhaustive(depth + 1) if len(o) == depth + 1]
-    for ops in ctx.rng('deeper').sample(deeper, 15000 if ctx.thorough() else 1500):
-        cases.append(('exhaustive-sample', 2, ops))
+    if not ctx.thorough():
+        deeper = [o for o in exhaustive(depth + 1) if len(o) == depth + 1]
+        for ops in ctx.rng('deeper').sample(deeper, 1500):
+            cases.append(('exhaustive-sample', 2, ops))
     rng = ctx.rng('random')
-    for _ in range(6000 if ctx.thorough() else 1200):
+    for _ in range(10000 if ctx.thorough() else 1200):
         p, ops = random_case(rng)
         cases.append(('random', p, ops))
     rng = ctx.rng('malformed')
@@ -894,14 +1049,14 @@ def correspondence(ctx, patch, root):
     cases = gen_cases(ctx, source_permits)
     lines = [model_line(source_permits if p is None else p, ops) for (_, p, ops) in cases]
     model = common.run_model('crt', lines)
-    mres = model_res_fn(source_permits)
+    mres = lambda a, b: None     # noqa: E731  (the implementation run needs no model verdicts)
     reported = 0
     exhaustive_n = 0
     mismatches = []
     for (stream, p, ops), line, mout in zip(cases, lines, model):
-        trace, bad, count = run_impl(patch, root, p, ops, model_results(mout))
+        trace, bad, count = run_impl(patch, root, p, ops)
         h = case_hist(ops)
-        nontrivial = ('submitted' in trace) and any(o[0] in 'CX' or (o[0] == 'S' and o[4]) for o in ops)
+        nontrivial = ('submitted' in trace) and any(o[0] in 'CRDX' or (o[0] == 'S' and o[4] != '0') for o in ops)
         ctx.count('crt', 1, nontrivial_key=(line if nontrivial else None), stream=stream, **h)
         if stream == 'exhaustive':
             exhaustive_n += 1
@@ -983,7 +1138,7 @@ def replay(ctx, data):
             return bool(ctx.violations)
         return bool(bad)
     if isinstance(case, dict) and 'thread_test' in case:
-        bad = thread_tests(ctx)
+        bad = [b for b in thread_tests(ctx) if b[1] == case['thread_test']]
         print('oracle:', bad)
         return bool(bad)
     run(ctx)
